@@ -18,6 +18,7 @@ fn main() {
     let args: Vec<String> = std::env::args().collect();
     std::panic::set_hook(Box::new(|_| {}));
     let quick = !args.iter().any(|a| a == "thorough");
+    report::start_hang_watchdog_twin("tokio");
     let st = match args.get(1).map(|s| s.as_str()) {
         Some("C01") => t01::run(quick),
         Some("C02") => t02::run(quick),
